@@ -58,7 +58,7 @@ def run_k(ctx, kres):
     v += pure.run_group(ctx, kres, "K07-pure-confloader", "conf", 300 if ctx.quick else 6000)
     # CKA_ALWAYS_AUTHENTICATE: every short order of context-specific / user / SO logins, logouts and private-key calls after C_SignInit / C_DecryptInit
     rt, nseq = gen2.c07_reauth_scope(ctx.seed, 3, sample=400 if ctx.quick else None)
-    def reauth_proj(m): return m["op"] in ("login", "logout", "siginit", "decinit", "sign", "sigupd", "sigfinal", "dec", "decupd", "decfinal") and m["cat"] in ("rvclass", "rvcode", "crypto")
+    def reauth_proj(m): return m["op"] in ("login", "logout", "siginit", "decinit", "sign", "sigupd", "sigfinal", "dec", "decupd", "decfinal", "sinfo") and m["cat"] in ("rvclass", "rvcode", "crypto", "nums")
     v += k_suite(ctx, kres, "K07-reauth-smallscope", [Trace("reauth", rt)], reauth_proj, sig_of=sig_of, shrink_budget=60)
     kres["notes"].append("K07-reauth-smallscope: %d call orders" % nseq)
     return v
